@@ -96,6 +96,7 @@ func (zp *ZoneParser) generate(l lex) (RR, bool) {
 	zp.sub = NewZoneParser(r, zp.origin, zp.file)
 	zp.sub.includeDepth, zp.sub.includeAllowed = zp.includeDepth, zp.includeAllowed
 	zp.sub.generateDisallowed = true
+	zp.sub.generateLine = rangeLex.line
 	zp.sub.SetIncludeFS(zp.fsys)
 	// Records without a TTL inherit the TTL state of the zone, like in an $INCLUDE.
 	if zp.sub.defttl = zp.defttl; zp.sub.defttl == nil {
